@@ -40,9 +40,15 @@ def gen_cases(tier, seed):
             for h in pick:
                 L = float(rng.uniform(1.5, 4.0))
                 t0 = float(rng.uniform(-3, 3))
+                dtn = "float64"
+                rr = rng.random()
+                if rr < 0.12:
+                    dtn = "float32"
+                elif rr < 0.22 and (info["explicit"] or info["stages"] <= 3):
+                    dtn = "longdouble"
                 cases.append(dict(method=name, rich=0, direction=d, history=h, t0=t0, tf=t0 + d * L, nsteps=float(rng.uniform(12, 40)),
-                                  rtol=10 ** float(rng.uniform(-8, -4)), pseed=int(rng.integers(1 << 30)),
-                                  cost=(2 if info["explicit"] else 15)))
+                                  rtol=10 ** float(rng.uniform(-8, -4)) if dtn != "float32" else 10 ** float(rng.uniform(-4, -3)), dtype=dtn, pseed=int(rng.integers(1 << 30)),
+                                  cost=(2 if info["explicit"] else 15) * (4 if dtn == "longdouble" else 1)))
     for base, n in ([("EulerSolver", 3), ("RK4Solver", 3), ("MidpointSolver", 4)] if tier == "quick" else
                     [("EulerSolver", 3), ("RK4Solver", 3), ("MidpointSolver", 4), ("HeunsSolver", 2), ("RK45CKSolver", 3), ("ImplicitMidpoint", 3)]):
         for d in (1, -1):
@@ -60,7 +66,8 @@ def _check_dense(rec, system, prob, spec, info, feats, f, label, rng):
     t = np.asarray(system.t)
     y = np.asarray(system.y)
     f2 = dict(feats, at=label)
-    ok = sysrun.dense_structure(rec, system, f2, expect_times=t if len(t) > 1 else [], K=K, substeps=bool(spec["rich"]))
+    ok = sysrun.dense_structure(rec, system, f2, expect_times=t if len(t) > 1 else [], K=K, substeps=bool(spec["rich"]),
+                                 time_eps=(None if y.dtype == np.float64 else float(np.finfo(y.dtype).eps)))
     sol = system.sol
     if sol is None or sol.t_eval is None or len(sol.y_interpolants) == 0:
         return
@@ -88,9 +95,15 @@ def _check_dense(rec, system, prob, spec, info, feats, f, label, rng):
                 mech = "richardson_pieces_from_unextrapolated_substeps" if err <= 2000 * tolu else "richardson_dense_grossly_off"
                 rec.violate("dense_node_value", mech, f2, k=k, err=err, tol=tolu)
                 break
-        elif not np.array_equal(v, y[k]):
+        elif dt_ == np.float64 and not np.array_equal(v, y[k]):
             rec.violate("dense_node_value", "sol_at_recorded_time_differs_from_recorded_state", f2, k=k, t=float(t[k]), err=float(np.max(np.abs(v - y[k]))))
             break
+        elif dt_ != np.float64:
+            # other precisions: implicit methods carry float64 increments inside their pieces; agreement to the rounding of the run's dtype
+            errn = float(np.max(np.abs(np.asarray(v, dtype=np.longdouble) - y[k].astype(np.longdouble))))
+            if errn > 8 * max(eps, 1.1e-16) * (1 + float(np.max(np.abs(y[k])))) * (1 + prob.lipschitz() * 0):
+                rec.violate("dense_node_value", "sol_at_recorded_time_differs_from_recorded_state", dict(f2, dtype=str(dt_)), k=k, t=float(t[k]), err=errn)
+                break
     # (2) queries answered by the containing piece; scalar vs array agreement
     lo, hi = float(min(t[0], t[-1])), float(max(t[0], t[-1]))
     if rich:
@@ -177,13 +190,13 @@ def run_case(spec):
     cls = info["cls"] if not spec["rich"] else util.richardson(info["cls"], spec["rich"])
     d = spec["direction"]
     t0, tf = spec["t0"], spec["tf"]
-    dt_ = np.dtype("float64")
+    dt_ = dtype_of(spec.get("dtype", "float64"))
     dim = 2
     prob = Manufactured(dim, spec["pseed"], direction=d)
     rng = rng_for(602, spec["pseed"])
     label = spec["method"] + ("/R%d" % spec["rich"] if spec["rich"] else "")
     rec = util.Rec(sig="%s|%d|%s|%d" % (label, d, spec["history"], spec["pseed"] % 5))
-    feats = {"method": spec["method"], "richardson": spec["rich"], "family": info["family"], "direction": d, "history": spec["history"]}
+    feats = {"method": spec["method"], "richardson": spec["rich"], "family": info["family"], "direction": d, "history": spec["history"], "dtype": spec.get("dtype", "float64")}
     fault = {"at": None, "n": 0}
 
     retry = {"armed": False, "log": None, "system": None}
